@@ -377,6 +377,11 @@ def r13_4(ctx, rc):
                 continue
             cn = cns[0]
             a1 = ctx.H.subst(call.args[1], f, cn)
+            if isinstance(a1, ast.Attribute) and a1.attr == 'name' and \
+                    isinstance(a1.value, ast.Attribute) and \
+                    a1.value.attr == 'file_comparison':
+                # the executor is asked directly, by the mode's name
+                a1 = a1.value
             if not (isinstance(a1, ast.Attribute) and
                     a1.attr == 'file_comparison'):
                 continue
